@@ -97,18 +97,25 @@ Out == Stringify(root, rep, space)
 TypeOK == /\ Len(stack) <= MaxDepth /\ nodes <= MaxNodes /\ pend \in {"none", "leaf", "arr", "obj", "close"}
           /\ \A i \in 1..Len(stack) : Len(stack[i].items) <= MaxWidth
 
-\* whatever the configuration, provided the gap consists of JSON whitespace (a gap such as "--" is copied
-\* into the text as it is): the text is a JSON text for the machine of JsonGrammar
 GapIsWs == \A i \in 1..Len(GapOf(space)) : GapOf(space)[i] \in {32, 9, 10, 13}
-ValidJson == (Gate /\ done /\ Out.r = "str" /\ GapIsWs) => Accepting(ParseText(Out.s))
-\* for JSON-representable values without replacer: the text reads back as the value itself
-RoundTrip == (Gate /\ done /\ rep.k = "none" /\ Representable(root) /\ GapIsWs) =>
-                /\ Out.r = "str"
-                /\ FinalValue(ParseText(Out.s)) = AsJson(root)
-\* the gap never exceeds ten units; without a replacer a JSON-typed root never gives undefined
+\* the gap never exceeds ten units
 GapOK == Len(GapOf(space)) <= 10
-RootOK == (done /\ rep.k = "none" /\ root.t \in {"null", "bool", "num", "str", "arr"}) => Out.r # "undef"
 
-EmitInv == done => PrintT(<<"TREE", ToJson([v |-> root, rep |-> rep, space |-> space, out |-> Out,
-                                            gap |-> GapOf(space), gapws |-> GapIsWs])>>)
+(* Properties of the reference text `out` of a complete value:                                            *)
+(*  ValidJson  provided the gap consists of JSON whitespace (a gap such as "--" is copied into the text   *)
+(*             as it is), the text is a JSON text for the machine of JsonGrammar;                         *)
+(*  RoundTrip  for a JSON-representable value without replacer it reads back as the value itself;         *)
+(*  RootOK     without a replacer a JSON-typed root never gives undefined.                                *)
+OutOK(out) ==
+  LET fin == ParseText(out.s) IN
+  /\ (Gate /\ out.r = "str" /\ GapIsWs) => Accepting(fin)
+  /\ (Gate /\ rep.k = "none" /\ Representable(root) /\ GapIsWs) => (out.r = "str" /\ FinalValue(fin) = AsJson(root))
+  /\ (rep.k = "none" /\ root.t \in {"null", "bool", "num", "str", "arr"}) => out.r # "undef"
+
+\* model gate and emission in one invariant (the reference text is computed once per complete value)
+CheckAndEmit ==
+  done => LET out == Out IN
+          /\ OutOK(out)
+          /\ PrintT(<<"TREE", ToJson([v |-> root, rep |-> rep, space |-> space, out |-> out,
+                                      gap |-> GapOf(space), gapws |-> GapIsWs])>>)
 =============================================================================
